@@ -49,6 +49,7 @@ class Harness:
     def interp(self, cx, loop_specs=None, overrides=None):
         it = Interp(self.repo, cx, prims, loop_specs=loop_specs, overrides=overrides)
         it._harness = self
+        cx.ghost["interp"] = it
         return it
 
     def explore(self, body, max_paths=400):
@@ -120,6 +121,7 @@ def run_check(repo, chk: Check, tier, prefix):
         groups.setdefault(o.name, []).append(o)
     solver_budget_ms = (150 if tier == "quick" else 900) * 1000
     spent = 0
+    dropped = []
     for name, insts in groups.items():
         results, ms, info, vac = [], 0, {}, 0
         for o in insts:
@@ -154,8 +156,10 @@ def run_check(repo, chk: Check, tier, prefix):
                 info = inf
             results.append(r)
         if not results:
-            res = "undecided"
-            info = {"reason": "vacuity guard: every instance has unsatisfiable hypotheses"}
+            # every instance sits on a path that is infeasible under the full path condition: the obligation does not
+            # arise at all (it is not counted, neither as discharged nor as undecided)
+            dropped.append(name)
+            continue
         else:
             res = _agg(results)
         meta = insts[0].meta
@@ -171,6 +175,9 @@ def run_check(repo, chk: Check, tier, prefix):
         if "cvc5" in info:
             rec["cvc5"] = info["cvc5"]
         out.append(rec)
+    if not out:
+        out.append({"name": f"{prefix}.{chk.name}", "function": chk.functions[0], "backend": "pyvc", "result": "undecided",
+                    "reason": "vacuity guard: every generated obligation sits on an infeasible path", "ms": 0, "kind": chk.kind})
     return out, funcs, H
 
 
